@@ -407,6 +407,214 @@ def _coil_case(T, base, dim, c, seed, family, neg=False):
     return [(k + "/negative-dim", w + f" (coil axis passed as {da})", o) for k, w, o in bad] if neg else bad
 
 
+
+# --------------------------------------------------------------------------------------------------
+# call sites: every place under direct/nn (+ mri_transforms, engine) that re-implements S·x or Σ conj(S)·y with its own
+# dims, found by an AST scan of the current tree, checked numerically against expand_operator / reduce_operator
+import ast as _ast
+import functools as _functools
+import importlib as _importlib
+import types as _types
+
+import core as _core
+
+_DIM_ATTR = ("coil_dim", "spatial_dims", "complex_dim")
+
+
+def _literal_attrs(cls: _ast.ClassDef):
+    out = {}
+    for n in _ast.walk(cls):
+        if isinstance(n, _ast.Assign) and len(n.targets) == 1 and isinstance(n.targets[0], _ast.Attribute) \
+                and isinstance(n.targets[0].value, _ast.Name) and n.targets[0].value.id == "self" \
+                and any(k in n.targets[0].attr for k in _DIM_ATTR):
+            try:
+                out[n.targets[0].attr] = _ast.literal_eval(n.value)
+            except Exception:  # noqa: BLE001
+                pass
+    return out
+
+
+def _fname(call):
+    f = call.func
+    return f.attr if isinstance(f, _ast.Attribute) else f.id if isinstance(f, _ast.Name) else ""
+
+
+@_functools.lru_cache(maxsize=None)
+def _callsite_scan():
+    """-> (methods, expressions): methods = [(module, class, method, attrs)], expressions = [dict(kind, file, line, cls, attrs,
+    expr (source), operands …)]"""
+    root = _core.REPO
+    files = sorted((root / "direct" / "nn").rglob("*.py")) + [root / "direct/data/mri_transforms.py", root / "direct/engine.py"]
+    methods, exprs = [], []
+    for py in files:
+        try:
+            tree = _ast.parse(py.read_text())
+        except (OSError, SyntaxError):
+            continue
+        rel = str(py.relative_to(root))
+        module = rel[:-3].replace("/", ".")
+        parents = {}
+        for node in _ast.walk(tree):
+            for ch in _ast.iter_child_nodes(node):
+                parents[ch] = node
+        for cls in [n for n in _ast.walk(tree) if isinstance(n, _ast.ClassDef)]:
+            attrs = _literal_attrs(cls)
+            for fn in [n for n in cls.body if isinstance(n, _ast.FunctionDef)]:
+                if fn.name in ("_forward_operator", "_backward_operator", "compute_sense_init"):
+                    methods.append((module, cls.name, fn.name, tuple(sorted(attrs.items(), key=str)), rel, fn.lineno))
+                for call in [n for n in _ast.walk(fn) if isinstance(n, _ast.Call) and _fname(n) == "complex_multiplication" and len(n.args) == 2]:
+                    a0, a1 = call.args
+                    conj = [i for i, a in enumerate((a0, a1)) if isinstance(a, _ast.Call) and _fname(a) == "conjugate" and len(a.args) == 1]
+                    unsq = [i for i, a in enumerate((a0, a1)) if isinstance(a, _ast.Call) and _fname(a) == "unsqueeze"]
+                    rec = {"file": rel, "line": call.lineno, "cls": cls.name, "fn": fn.name, "attrs": attrs, "src": _ast.unparse(call)[:160]}
+                    if len(conj) == 1:
+                        # is the product summed (chained `.sum(D)` or `name = name.sum(D)` right after)?
+                        par = parents.get(call)
+                        dnode = None
+                        if isinstance(par, _ast.Attribute) and par.attr == "sum" and isinstance(parents.get(par), _ast.Call):
+                            sc = parents[par]
+                            dnode = sc.args[0] if sc.args else next((k.value for k in sc.keywords if k.arg == "dim"), None)
+                        else:
+                            st = par
+                            while st is not None and not isinstance(st, _ast.stmt):
+                                st = parents.get(st)
+                            if isinstance(st, _ast.Assign) and st.value is call and isinstance(st.targets[0], _ast.Name):
+                                body = parents.get(st)
+                                sib = getattr(body, "body", [])
+                                if st in sib and sib.index(st) + 1 < len(sib):
+                                    nx = sib[sib.index(st) + 1]
+                                    v = getattr(nx, "value", None)
+                                    if isinstance(v, _ast.Call) and isinstance(v.func, _ast.Attribute) and v.func.attr == "sum" \
+                                            and _ast.unparse(v.func.value) == st.targets[0].id:
+                                        dnode = v.args[0] if v.args else next((k.value for k in v.keywords if k.arg == "dim"), None)
+                        ci = conj[0]
+                        rec.update(kind="reduce-like", conj_index=ci, conj_operand=_ast.unparse((a0, a1)[ci].args[0]),
+                                   other_operand=_ast.unparse((a0, a1)[1 - ci])[:80], dim=_ast.unparse(dnode) if dnode is not None else None)
+                        exprs.append(rec)
+                    elif len(unsq) == 1:
+                        ui = unsq[0]
+                        u = (a0, a1)[ui]
+                        d = u.args[0] if u.args else next((k.value for k in u.keywords if k.arg == "dim"), None)
+                        rec.update(kind="expand-like", unsq_index=ui, image_operand=_ast.unparse(u.func.value)[:80],
+                                   other_operand=_ast.unparse((a0, a1)[1 - ui])[:80], dim=_ast.unparse(d) if d is not None else None)
+                        exprs.append(rec)
+    return methods, exprs
+
+
+def _resolve_dim(text, attrs):
+    """`self._coil_dim` / `1` / `self.coil_dim` -> int | None"""
+    if text is None:
+        return None
+    try:
+        v = _ast.literal_eval(text)
+        return v if isinstance(v, int) else None
+    except Exception:  # noqa: BLE001
+        pass
+    if text.startswith("self.") and text[5:] in attrs and isinstance(attrs[text[5:]], int):
+        return attrs[text[5:]]
+    return None
+
+
+def _callsite_method_case(T, module, cls_name, meth, attrs, seed):
+    """run Class.<meth> unbound on a stand-in `self` (the class's literal dims + recording identity operators) -> failures"""
+    import random
+
+    r = random.Random(seed)
+    attrs = dict(attrs)
+    coil = attrs.get("_coil_dim", attrs.get("coil_dim"))
+    sp = attrs.get("_spatial_dims", attrs.get("spatial_dims"))
+    if not isinstance(coil, int) or not isinstance(sp, (tuple, list)):
+        return None, f"dims of {cls_name} are not literals ({attrs})"
+    try:
+        cls = getattr(_importlib.import_module(module), cls_name)
+        fn = cls.__dict__[meth]
+    except Exception as e:  # noqa: BLE001
+        return None, f"cannot import {module}.{cls_name}: {err_name(e)}"
+    rank = max(sp) + 1
+    shape = [r.choice([1, 2, 3]) for _ in range(rank)]
+    shape[coil] = r.choice([1, 2, 3, 4])
+    img_shape = shape[:coil] + shape[coil + 1:]
+    S = _ints(r, shape + [2], -4, 4)
+    y = _ints(r, shape + [2], -4, 4)
+    x = _ints(r, img_shape + [2], -4, 4)
+    mshape = [1] * rank + [1]
+    for a in sp:
+        mshape[a] = shape[a]
+    mshape[0] = shape[0]
+    mask = (_ints(r, mshape, 0, 1) > 0)
+    seen = []
+
+    def rec_op(data, *a, **kw):
+        seen.append(kw.get("dim", a[0] if a else None))
+        return data.clone()
+    me = _types.SimpleNamespace(forward_operator=rec_op, backward_operator=rec_op, **attrs)
+    import inspect
+    params = list(inspect.signature(fn).parameters)[1:]
+    binding = {"image": x, "kspace": y, "sensitivity_map": S, "sampling_mask": mask}
+    if not all(p in binding for p in params):
+        return None, f"{cls_name}.{meth} has parameters {params} the scan does not know"
+    zero = torch.tensor([0.0])
+    try:
+        got = fn(me, **{p: binding[p] for p in params})
+    except Exception as e:  # noqa: BLE001
+        return [("callsite/method-raises", f"{module}.{cls_name}.{meth} raises {err_name(e)}: {e}"[:200])], None
+    if meth == "_forward_operator":
+        ref = torch.where(mask == 0, zero, T.expand_operator(x, S, dim=coil))
+    elif meth == "_backward_operator":
+        ref = T.reduce_operator(torch.where(mask == 0, zero, y), S, dim=coil)
+    else:
+        ref = T.reduce_operator(y, S, dim=coil)
+    bad = []
+    if got.shape != ref.shape or not torch.equal(got, ref):
+        bad.append(("callsite/method-mismatch", f"{module}.{cls_name}.{meth} differs from the composition of expand/reduce_operator over coil "
+                                                f"axis {coil} (shape {shape})"))
+    if not seen or any(tuple(d) != tuple(sp) for d in seen if d is not None) or any(d is None for d in seen):
+        bad.append(("callsite/method-dims", f"{module}.{cls_name}.{meth} calls its Fourier operator with dim={seen}, the class declares {sp}"))
+    # and with the real operators, against the composition written with the transforms
+    me2 = _types.SimpleNamespace(forward_operator=T.fft2, backward_operator=T.ifft2, **attrs)
+    try:
+        got2 = fn(me2, **{p: binding[p] for p in params})
+        if meth == "_forward_operator":
+            ref2 = torch.where(mask == 0, zero, T.fft2(T.expand_operator(x, S, dim=coil), dim=tuple(sp)))
+        elif meth == "_backward_operator":
+            ref2 = T.reduce_operator(T.ifft2(torch.where(mask == 0, zero, y), dim=tuple(sp)), S, dim=coil)
+        else:
+            ref2 = T.reduce_operator(T.ifft2(y, dim=tuple(sp)), S, dim=coil)
+        if got2.shape != ref2.shape or not torch.allclose(got2, ref2, atol=1e-4):
+            bad.append(("callsite/method-mismatch", f"{module}.{cls_name}.{meth} with fft2/ifft2 differs from the reference composition"))
+    except Exception as e:  # noqa: BLE001
+        bad.append(("callsite/method-raises", f"{module}.{cls_name}.{meth} with fft2/ifft2 raises {err_name(e)}"[:200]))
+    return bad, None
+
+
+def _callsite_expr_case(T, rec, seed):
+    """evaluate the scanned `complex_multiplication(…)` expression (operands replaced by tensors, the dim by its literal)
+    against reduce_operator / expand_operator -> (failures | None when the dim is not a literal, note)"""
+    import random
+
+    r = random.Random(seed)
+    d = _resolve_dim(rec["dim"], rec["attrs"])
+    if d is None or d < 0:
+        return None, None
+    rank = max(d + 1, 3) + r.choice([0, 1])
+    shape = [r.choice([1, 2, 3]) for _ in range(rank)]
+    shape[d] = r.choice([2, 3, 4])
+    S = _ints(r, shape + [2], -4, 4)
+    cm, cj = T.complex_multiplication, T.conjugate
+    if rec["kind"] == "reduce-like":
+        y = _ints(r, shape + [2], -4, 4)
+        got = (cm(cj(S), y) if rec["conj_index"] == 0 else cm(y, cj(S))).sum(d)
+        ref = T.reduce_operator(y, S, dim=d)
+    else:
+        x = _ints(r, shape[:d] + shape[d + 1:] + [2], -4, 4)
+        got = cm(x.unsqueeze(d), S) if rec["unsq_index"] == 0 else cm(S, x.unsqueeze(d))
+        ref = T.expand_operator(x, S, dim=d)
+    if got.shape != ref.shape or not torch.equal(got, ref):
+        return [("callsite/expression-mismatch", f"{rec['file']}:{rec['line']} `{rec['src']}` over axis {d} differs from "
+                                                 f"{'reduce' if rec['kind'] == 'reduce-like' else 'expand'}_operator")], None
+    return [], None
+
+
 def _native_case(T, seed):
     """one random float case (everything derived from `seed`) -> (failures [(key, what, observed)], nontrivial, bucket)"""
     import random
@@ -522,6 +730,39 @@ def oracle(ctx: Ctx, deep: bool = False):
                 for key, what, obs in _coil_case(T, base, dim, c, seed, fam, neg):
                     yield Violation(key, what, {"op": "coil", "base": base, "dim": dim, "coils": c, "seed": seed, "family": fam,
                                                 "neg": neg, "law": key, "observed": obs})
+    # (2b) call sites under direct/nn (+ mri_transforms, engine): helper methods and inline re-implementations of S·x and
+    #      Σ conj(S)·y, found by an AST scan of the current tree
+    methods, exprs = _callsite_scan()
+    unresolved = []
+    for (module, cls_name, meth, attrs, rel, lineno) in methods:
+        for rep in range(ctx.budget(2, 10)):
+            seed = rng.randrange(2 ** 31)
+            bad, note = _callsite_method_case(T, module, cls_name, meth, attrs, seed)
+            if bad is None:
+                unresolved.append(f"{rel}:{lineno} {cls_name}.{meth}: {note}")
+                break
+            ctx.count(("callsite-method", module, cls_name, meth, seed), True, bucket=f"oracle/callsite-method/{cls_name}.{meth}")
+            for key, what in bad:
+                yield Violation(key, what, {"op": "callsite-method", "module": module, "class": cls_name, "method": meth,
+                                            "attrs": list(attrs), "seed": seed, "law": key})
+    kinds: dict[str, int] = {}
+    sens_conj, other_conj = [], []
+    for rec in exprs:
+        kinds[rec["kind"]] = kinds.get(rec["kind"], 0) + 1
+        if rec["kind"] == "reduce-like":
+            (sens_conj if "sens" in rec["conj_operand"].lower() else other_conj).append(f"{rec['file']}:{rec['line']} conj({rec['conj_operand']}) dim={rec['dim']}")
+        seed = rng.randrange(2 ** 31)
+        bad, _ = _callsite_expr_case(T, rec, seed)
+        if bad is None:
+            unresolved.append(f"{rec['file']}:{rec['line']} {rec['kind']} `{rec['src'][:60]}` dim={rec['dim']} (not summed here / dim not a literal)")
+            continue
+        ctx.count(("callsite-expr", rec["file"], rec["line"], seed), True, bucket=f"oracle/callsite-expr/{rec['kind']}")
+        for key, what in bad:
+            yield Violation(key, what, {"op": "callsite-expr", "file": rec["file"], "line": rec["line"], "seed": seed, "law": key})
+    ctx.notes.append(f"call-site scan of direct/nn, direct/data/mri_transforms.py, direct/engine.py: {len(methods)} helper methods "
+                     f"(_forward_operator/_backward_operator/compute_sense_init) and {len(exprs)} inline complex_multiplication re-implementations "
+                     f"({kinds}); conj applied to a sensitivity operand at {len(sens_conj)} sites, to another operand at {len(other_conj)} sites "
+                     f"{other_conj[:4]}; not checked numerically: {len(unresolved)} {unresolved[:6]}")
     # (3) float range.  (a) always on: while no intermediate product / square leaves the normal float32 range (operands
     #     scaled by 1e-18 .. 1e18 at a common scale, 1e-9 .. 1e9 at mixed scales) every helper must agree with the exact
     #     (float64) complex result — a deviation here is a NEW defect: key `native-mismatch:<helper>`.
@@ -673,6 +914,16 @@ def replay(rep: dict) -> bool:
         if op == "coil":
             bad = _coil_case(T, rep["base"], rep["dim"], rep["coils"], rep["seed"], rep["family"], rep.get("neg", False))
             return any(k == rep["law"] for k, _, _ in bad)
+        if op == "callsite-method":
+            bad, _ = _callsite_method_case(T, rep["module"], rep["class"], rep["method"], tuple(tuple(a) for a in rep["attrs"]), rep["seed"])
+            return bool(bad) and any(k == rep["law"] for k, _ in bad)
+        if op == "callsite-expr":
+            _, exprs = _callsite_scan()
+            for rec in exprs:
+                if rec["file"] == rep["file"] and rec["line"] == rep["line"]:
+                    bad, _ = _callsite_expr_case(T, rec, rep["seed"])
+                    return bool(bad)
+            return False
         if op == "native":
             bad, _, _ = _native_case(T, rep["seed"])
             return any(k == rep["law"] for k, _, _ in bad)
